@@ -128,7 +128,7 @@ PROPS = {
     "C07": dict(
         crate="mon_engine", cmd="c07", level="exploration", needs_app=True,
         floors={"quick": {"go_depth": 300, "go_movetime": 150, "go_clock": 150, "go_infinite": 150, "go_with_searchmoves": 100, "go_without_new_position": 200, "roots_already_threefold": 30, "roots_occurred_twice": 10,
-                          "mate_roots": 10, "stalemate_roots": 5, "roots_fullmove_above_2500": 50, "answered_via_app": 50, "answered_via_app-hooked": 20, "searches_interrupted": 100, "sessions": 100}},
+                          "mate_roots": 10, "stalemate_roots": 5, "roots_fullmove_above_2500": 50, "roots_fullmove_at_or_above_32766": 20, "answered_via_app": 50, "answered_via_app-hooked": 20, "searches_interrupted": 100, "sessions": 100}},
         rule="sessions of 3-12 ucinewgame/position/go cycles on one engine instance: roots from reference walks of 0-120 moves from seeds (full-move numbers up to 30000), 15% with knight/king shuffle histories so that the root already occurred 2 or >=3 times, 5% mate/stalemate roots; "
              "go limits from {depth 1-4} u {movetime 0,1,2,5,50} u {wtime/btime in {0,1,50,1000,60000} x winc/binc in {absent,0,1,100}} u {infinite + stop after 0/50us/1ms/20ms/150ms}, 25% with searchmoves (random subset of legal moves, sometimes padded with illegal ones), 40% of cycles without a new position command; "
              "driven in-process (Engine<CommandUciTx>) with poll intervals {default,1000,5000,20000} and through the shipped binary (plain and hooked build) over pipes; bounded restatement of 'is answered': the answer arrives before a 120 s watchdog (else inconclusive if the search thread is alive, violation if it died); "
@@ -139,7 +139,7 @@ PROPS = {
     "C08": dict(
         crate="mon_engine", cmd="c08", level="exploration",
         floors={"quick": {"value_searches_depth_1": 500, "value_searches_depth_2": 500, "value_searches_depth_3": 500, "forced_mate_in_1_white": 20, "forced_mate_in_1_black": 20, "forced_mate_in_2_white": 20, "forced_mate_in_2_black": 20, "forced_mate_in_3_*": 10,
-                          "positive_mate_reports": 200, "values_that_are_mates": 50, "unrelated_searches_interleaved": 100, "ucinewgame_interleaved": 20}},
+                          "positive_mate_reports": 200, "values_that_are_mates": 50, "unrelated_searches_interleaved": 100, "ucinewgame_interleaved": 20, "value_searches_after_an_earlier_game_on_the_same_plies": 300}},
         rule="positions from reference walks (half-move clock <= 40) and synthesised low-material positions, both colours; `position fen P`, `go depth d` (d in 1..3) on one long-lived engine instance per shard with unrelated searches and ucinewgame interleaved; "
              "the reported score is compared (centipawns exactly, mates as distances) with a plain alpha-beta negamax over the reference move generator (no TT / killers / PV / iterative deepening; capture+promotion quiescence with stand-pat; leaf values from the engine's own static evaluation through the hook), the announced move must attain that value; "
              "positions the pure rules search proves 'mate in N' (N<=3) must be reported `mate N` at depth 2N-1 with a move that keeps the mate; every positive `mate N` report must carry a legal PV of 2N-1 plies ending in checkmate; distinct_nontrivial = distinct (position key, depth) pairs searched",
@@ -147,7 +147,7 @@ PROPS = {
     ),
     "C09": dict(
         crate="mon_engine", cmd="c09", level="fault_enumeration", needs_app=True,
-        floors={"quick": {"searches_enumerated": 50, "interruption_points_enumerated": 5000, "interrupted_after_a_completed_iteration": 3000, "probe_searches": 5000, "consecutive_interruption_runs": 50, "quit_during_search": 50, "movetime_expiry": 30, "stop_after_*": 100, "real_abort_at_node_*": 50}},
+        floors={"quick": {"searches_enumerated": 50, "interruption_points_enumerated": 5000, "interrupted_after_a_completed_iteration": 3000, "probe_searches": 5000, "consecutive_interruption_runs": 50, "quit_during_search": 50, "stop_and_same_position_back_to_back": 50, "movetime_expiry": 30, "stop_after_*": 100, "real_abort_at_node_*": 50}},
         rule="interruption points are enumerated through the test point at the search's only suspension point: with poll interval 1 every negamax node is a poll, and abort_at_node(n) makes the search behave as if its move time expired at the n-th poll; for each chosen (position, depth) n runs over 1..T (thorough: every n; quick: stride so that <= 700 points per search), "
              "then 2-5 consecutive interrupted searches at random n; after every interrupted search: (a) the search thread's board dump equals the dump of the position given, (b) `go depth 1` without position answers a move legal in that position with the depth-1 score of a fresh engine, (c) exactly one bestmove, equal to the first PV move of the last completed iteration; "
              "real schedules without the test point (default 100 000-node poll): go infinite + stop after 0us..400ms, go movetime 1-20, quit during search, in-process and through the shipped binary; distinct_nontrivial = distinct (iteration, ply at abort) pairs observed",
@@ -155,7 +155,7 @@ PROPS = {
     ),
     "C10": dict(
         crate="mon_engine", cmd="c10", level="exploration",
-        floors={"quick": {"layer1_queries": 100000, "layer1_threefold_cases": 10000, "layer1_real_positions": 20000, "layer1_real_threefold": 1000, "layer2_occurrence_count_1": 500, "layer2_occurrence_count_2": 200, "layer2_occurrence_count_3": 100,
+        floors={"quick": {"layer1_queries": 100000, "layer1_threefold_cases": 10000, "layer1_real_positions": 20000, "layer1_real_threefold": 1000, "layer2_occurrence_count_1": 500, "layer2_occurrence_count_2": 200, "layer2_occurrence_count_3": 100, "layer2_bare_fen_after_history": 100,
                           "layer3_below_threshold": 150, "layer3_at_or_above_threshold": 60, "fifty_rule_applied": 30, "mate_on_threshold_ply_checks": 20, "layer4_perpetual_checks": 300, "layer4_scored_as_draw": 200}},
         rule="layer 1: count_repetitions (hook) against the model 'history[i] occurs >=3 times among i, i-2, ... >= i-window' on random hash histories (2-6 symbols, length <= 400, index offsets up to 60000) and on real shuffle games (hashes and clocks from the board); "
              "layer 2: lopsided low-material shuffle games (K+Q/R/QR/RR [+pawn] vs K, positions recur at varied distances, occasional pawn push, FEN clocks/move numbers up to 29000): `position fen .. moves <history>`, `go depth 1 searchmoves m` for quiet m; the reference counts occurrences of the resulting position since the last irreversible move; demand |score| <= contempt iff occurrences >= 3, else |score| >= 200; "
